@@ -11,6 +11,12 @@ static pthread_barrier_t bar;
 static void convert(const unsigned char *s, size_t n, int t) {
 	char *doc = malloc(n + 1); memcpy(doc, s, n); doc[n] = 0;
 	for (int f = 0; f < 9; f++) for (int x = 0; x < 3; x++) {
+		if (f == 0 && x == 2) {      /* the text-level CriticMarkup passes and the metadata queries, once per document */
+			DString *c = d_string_new(doc); mmd_critic_markup_accept(c); hashes[t] = k_fnv(c->str, c->currentStringLength, hashes[t]); d_string_free(c, true);
+			c = d_string_new(doc); mmd_critic_markup_reject(c); hashes[t] = k_fnv(c->str, c->currentStringLength, hashes[t]); d_string_free(c, true);
+			char *ks = mmd_string_metadata_keys(doc); if (ks) free(ks);
+			char *v = mmd_string_metavalue_for_key(doc, "title"); if (v) free(v);
+		}
 		DString *d = mmd_string_convert_to_data(doc, XS[x], FM[f], 0, NULL);
 		if (d) { hashes[t] = k_fnv(d->str, d->currentStringLength > 64 ? 64 : d->currentStringLength, hashes[t]); d_string_free(d, true); }
 		per_thread[t]++;
